@@ -230,6 +230,8 @@ def gen_op(rng, ctxs, vals, allow_reenter):
         return {"op": "strmatch", "ctx": c, "stall": rng.choice((0.0, 3.0)), "pat": rng.randrange(2)}
     if r < 0.58:
         return {"op": "array_reuse", "ctx": c, "stall": rng.choice((0.0, 0.0, 3.0))}
+    if r < 0.63:
+        return {"op": "json_recover", "ctx": c, "how": rng.choice(("cycle", "cycle_caught", "deep"))}
     effects = [gen_effect(rng, vals) for _ in range(rng.randrange(1, 5))]
     pool = list(OTHER_TERMINALS)
     if cfg["T_work"]:
@@ -370,6 +372,26 @@ class Sim:
             b = (tw["kind"], tw.get("value") if tw["kind"] == "value" else tw.get("cls"))
             if a != b:
                 self.bad("C12.leak", "RegExp objects defined by an earlier eval: context %d gives %r, its fault-free twin %r (the time budget of an earlier eval carried over?)" % (c, a, b), step)
+            return
+        if kind == "json_recover":
+            # a built-in that fails half-way through a long-lived object graph (a cycle, too deep)
+            # and is then used again on the same, repaired, objects
+            mk = "if (typeof gobj === 'undefined') { gobj = {a: [1, {b: 2}], c: 'x'}; }\n"
+            if op["how"] == "deep":
+                bad = mk + "var dz = gobj.a[1]; for (var i = 0; i < 5000; i++) { dz.n = {}; dz = dz.n; } JSON.stringify(gobj);"
+                fix = "delete gobj.a[1].n;"
+            elif op["how"] == "cycle":
+                bad = mk + "gobj.a[1].self = gobj; JSON.stringify(gobj);"
+                fix = "delete gobj.a[1].self;"
+            else:
+                bad = mk + "gobj.self = gobj; var jr; try { JSON.stringify(gobj); jr = 'no error'; } catch (e) { jr = 'caught'; } jr;"
+                fix = "delete gobj.self;"
+            o1 = run_eval(ctx, bad, cap)
+            o2 = run_eval(ctx, fix + " JSON.stringify(gobj);", cap)
+            if not (o2["kind"] == "value" and o2["value"] == '{"a":[1,{"b":2}],"c":"x"}'):
+                self.bad("C12.recover", "JSON.stringify of a repaired object graph after a failed stringify (%s, ended in %s) on context %d gives %s %r, a context without the failed call gives the JSON text" % (
+                    op["how"], o1["kind"], c, o2["kind"], o2.get("value") if o2["kind"] == "value" else o2.get("msg")), step)
+            run_eval(twin, mk + "'ok';", cap)
             return
         if kind == "array_reuse":
             # one global array lives across evals: its callback-taking methods must run their
